@@ -1686,7 +1686,11 @@ class Interp:
     if key == "normalize":
       l = self.sqrt(sumv([m(x, x) for x in a[0].c], self))
       nz = cmp(">", l, 0)
-      return Vec([ite(nz, arith("/", x, l, self), 0.0) for x in a[0].c], a[0].shape, a[0].dt)
+      # Warp: normalize(0-vector) = 0, but normalize(quat 0) = identity quaternion (x,y,z,w) = (0,0,0,1)
+      zero = [0.0] * len(a[0].c)
+      if a[0].dt == "quat":
+        zero = [0.0, 0.0, 0.0, 1.0]
+      return Vec([ite(nz, arith("/", x, l, self), z) for x, z in zip(a[0].c, zero)], a[0].shape, a[0].dt)
     if key == "transpose":
       r, c = a[0].shape
       return Vec([a[0].c[i * c + j] for j in range(c) for i in range(r)], (c, r), a[0].dt)
